@@ -12,27 +12,27 @@ use crate::verif_models::hooks;
 use crate::verif_models::process as gproc;
 use crate::BlockHeightRange;
 
-static mut STARTED: u64 = u64::MAX;
-static mut N_START: usize = 0;
-static mut N_BLOCKS: usize = 0;
-static mut HEIGHTS: [u64; 8] = [0; 8];
-static mut MARKS: [u32; 8] = [0; 8];
-static mut N_COMPLETE: usize = 0;
-static mut COMPLETED: u64 = u64::MAX;
+static mut STARTED: crate::verif_models::Tg<u64> = crate::verif_models::Tg { v: u64::MAX, tag: 0x5eedc0de00000042 };
+static mut N_START: crate::verif_models::Tg<usize> = crate::verif_models::Tg { v: 0, tag: 0x5eedc0de00000043 };
+static mut N_BLOCKS: crate::verif_models::Tg<usize> = crate::verif_models::Tg { v: 0, tag: 0x5eedc0de00000044 };
+static mut HEIGHTS: crate::verif_models::Tg<[u64; 8]> = crate::verif_models::Tg { v: [0; 8], tag: 0x5eedc0de00000045 };
+static mut MARKS: crate::verif_models::Tg<[u32; 8]> = crate::verif_models::Tg { v: [0; 8], tag: 0x5eedc0de00000046 };
+static mut N_COMPLETE: crate::verif_models::Tg<usize> = crate::verif_models::Tg { v: 0, tag: 0x5eedc0de00000047 };
+static mut COMPLETED: crate::verif_models::Tg<u64> = crate::verif_models::Tg { v: u64::MAX, tag: 0x5eedc0de00000048 };
 
 struct Rec;
 impl Callback for Rec {
     fn build_subcommand() -> clap::Command where Self: Sized { clap::Command::new("rec") }
     fn new(_: &clap::ArgMatches) -> Result<Self> where Self: Sized { Ok(Rec) }
-    fn on_start(&mut self, h: u64) -> Result<()> { unsafe { STARTED = h; N_START += 1; } Ok(()) }
+    fn on_start(&mut self, h: u64) -> Result<()> { unsafe { STARTED.v = h; N_START.v += 1; } Ok(()) }
     fn on_block(&mut self, b: &Block, h: u64) -> Result<()> {
         unsafe {
-            if N_BLOCKS < 8 { HEIGHTS[N_BLOCKS] = h; MARKS[N_BLOCKS] = b.size; }
-            N_BLOCKS += 1;
+            if N_BLOCKS.v < 8 { HEIGHTS.v[N_BLOCKS.v] = h; MARKS.v[N_BLOCKS.v] = b.size; }
+            N_BLOCKS.v += 1;
         }
         Ok(())
     }
-    fn on_complete(&mut self, h: u64) -> Result<()> { unsafe { COMPLETED = h; N_COMPLETE += 1; } Ok(()) }
+    fn on_complete(&mut self, h: u64) -> Result<()> { unsafe { COMPLETED.v = h; N_COMPLETE.v += 1; } Ok(()) }
 }
 
 fn mk_parser(max_height: u64, start: u64) -> BlockchainParser {
@@ -56,22 +56,22 @@ macro_rules! start_loop {
             kani::assume(m <= $mmax);
             let start: u64 = kani::any();
             kani::assume(start <= m + 1);
-            unsafe { hooks::GB_STUB_ON = true; }
+            unsafe { hooks::GB_STUB_ON.v = true; }
             let mut p = mk_parser(m, start);
             let r = p.start();
             assert!(r.is_ok(), "C02:run_succeeds");
             unsafe {
-                assert!(N_START == 1 && STARTED == start, "C02:on_start_gets_start_height");
+                assert!(N_START.v == 1 && STARTED.v == start, "C02:on_start_gets_start_height");
                 let n = if start <= m { (m - start + 1) as usize } else { 0 };
-                assert!(N_BLOCKS == n, "C02:exactly_the_heights_start_to_max_are_delivered");
+                assert!(N_BLOCKS.v == n, "C02:exactly_the_heights_start_to_max_are_delivered");
                 let mut i = 0;
                 while i < n {
-                    assert!(HEIGHTS[i] == start + i as u64, "C02:ascending_each_once");
-                    assert!(MARKS[i] == (start + i as u64) as u32, "C02:block_of_its_own_height");
+                    assert!(HEIGHTS.v[i] == start + i as u64, "C02:ascending_each_once");
+                    assert!(MARKS.v[i] == (start + i as u64) as u32, "C02:block_of_its_own_height");
                     i += 1;
                 }
-                assert!(N_COMPLETE == 1, "C02:on_complete_once");
-                if n > 0 { assert!(COMPLETED == m, "C02:on_complete_gets_last_processed_height"); }
+                assert!(N_COMPLETE.v == 1, "C02:on_complete_once");
+                if n > 0 { assert!(COMPLETED.v == m, "C02:on_complete_gets_last_processed_height"); }
             }
             kani::cover!(start == 0 && m == $mmax, "whole chain of maximal length");
             kani::cover!(start == m, "start at tip: one block");
@@ -97,13 +97,13 @@ start_loop!(c02_start_loop_m4, 4, 8);
 #[kani::stub(<bitcoin::hashes::sha256d::Hash as bitcoin::hashes::Hash>::from_engine, crate::verif_models::ghost::stub_sha256d_fin)]
 #[kani::stub(<bitcoin::hashes::hash160::Hash as bitcoin::hashes::Hash>::from_engine, crate::verif_models::ghost::stub_hash160_fin)]
 fn c02_start_none_at1() {
-    unsafe { hooks::GB_STUB_ON = true; hooks::GB_NONE_AT = 1; }
+    unsafe { hooks::GB_STUB_ON.v = true; hooks::GB_NONE_AT.v = 1; }
     let mut p = mk_parser(3, 0);
     let r = p.start();
     assert!(r.is_ok(), "C02:run_succeeds");
     unsafe {
-        assert!(N_BLOCKS == 1 && HEIGHTS[0] == 0, "C02:stops_at_first_missing_height");
-        assert!(N_COMPLETE == 1 && COMPLETED == 0, "C02:on_complete_gets_last_processed_height");
+        assert!(N_BLOCKS.v == 1 && HEIGHTS.v[0] == 0, "C02:stops_at_first_missing_height");
+        assert!(N_COMPLETE.v == 1 && COMPLETED.v == 0, "C02:on_complete_gets_last_processed_height");
     }
     kani::cover!(true, "loop stopped by None");
     core::mem::forget(r);
@@ -114,9 +114,9 @@ fn c02_start_none_at1() {
 fn at_exit_check(code: i32) {
     unsafe {
         assert!(code == 1, "C10:read_error_exits_with_status_1");
-        assert!(N_COMPLETE == 0, "C10:no_on_complete_after_a_read_error");
-        assert!(crate::verif_models::fs::RENAMES == 0, "C10:no_final_named_file_after_a_read_error");
-        assert!(N_BLOCKS == hooks::GB_ERR_AT, "C09:blocks_before_the_failing_height_were_delivered_only");
+        assert!(N_COMPLETE.v == 0, "C10:no_on_complete_after_a_read_error");
+        assert!(crate::verif_models::fs::RENAMES.v == 0, "C10:no_final_named_file_after_a_read_error");
+        assert!(N_BLOCKS.v == hooks::GB_ERR_AT.v, "C09:blocks_before_the_failing_height_were_delivered_only");
     }
 }
 macro_rules! fail_stops {
@@ -128,7 +128,7 @@ macro_rules! fail_stops {
             #[kani::stub(<bitcoin::hashes::sha256d::Hash as bitcoin::hashes::Hash>::from_engine, crate::verif_models::ghost::stub_sha256d_fin)]
             #[kani::stub(<bitcoin::hashes::hash160::Hash as bitcoin::hashes::Hash>::from_engine, crate::verif_models::ghost::stub_hash160_fin)]
         fn $name() {
-            unsafe { hooks::GB_STUB_ON = true; hooks::GB_ERR_AT = $k; gproc::AT_EXIT = Some(at_exit_check); }
+            unsafe { hooks::GB_STUB_ON.v = true; hooks::GB_ERR_AT.v = $k; gproc::AT_EXIT.v = Some(at_exit_check); }
             let start: u64 = kani::any();
             kani::assume(start <= 1);
             let mut p = mk_parser(3, start);
